@@ -28,8 +28,12 @@ type GenOpts struct {
 	// percent-escape ("width=100%", "q=50%+off"): net/url keeps RawQuery verbatim
 	// and net/http accepts and forwards such targets.
 	BadQuery bool
-	// UndeclaredTrailers lets some chunked messages send trailer fields without
-	// announcing them in a Trailer header.
+	// HugeInflate makes the response a highly compressible body of 1-4 MiB
+	// (MaxInflate) under gzip / deflate: a few KiB on the wire.
+	HugeInflate bool
+	MaxInflate  int
+	// UndeclaredTrailers makes chunked messages send their trailer fields (more
+	// often than usual) without announcing them in a Trailer header.
 	UndeclaredTrailers bool
 }
 
@@ -615,14 +619,14 @@ func framingLines(rng *rand.Rand, s *Spec, allowTrailers bool, o GenOpts) []Fiel
 		fs = append(fs, Field{"Transfer-Encoding", "chunked"})
 		s.Chunks = splitChunks(rng, len(s.Body))
 		s.ChunkExt = rng.Intn(6) == 0
-		if allowTrailers && rng.Intn(3) == 0 {
+		if allowTrailers && (rng.Intn(3) == 0 || o.UndeclaredTrailers && rng.Intn(2) == 0) {
 			names := []string{"X-Checksum", "X-Trailer-A", "Etag-Check", "x-t-lower"}
 			k := 1 + rng.Intn(3)
 			perm := rng.Perm(len(names))
 			for i := 0; i < k; i++ {
 				s.Trailers = append(s.Trailers, Field{names[perm[i]], RandValue(rng)})
 			}
-			if rng.Intn(5) > 0 || !o.UndeclaredTrailers {
+			if !o.UndeclaredTrailers {
 				s.Declared = true
 				var ns []string
 				for _, t := range s.Trailers {
@@ -669,7 +673,7 @@ func GenRequest(rng *rand.Rand, o GenOpts) *Spec {
 		s.HasQuery = true
 	}
 	if o.BadQuery && rng.Intn(6) == 0 {
-		bad := []string{"width=100%", "q=50%+off", "x=%zz", "%=1", "pct=5%25%", "t=%e9%"}[rng.Intn(6)]
+		bad := []string{"width=100%", "q=50%+off", "x=%zz", "%=1", "pct=5%25%", "t=%e9%", "discount=100%", "a=1;b=2"}[rng.Intn(8)]
 		switch {
 		case !s.HasQuery:
 			s.RawQuery = bad
@@ -795,6 +799,25 @@ func GenResponse(rng *rand.Rand, o GenOpts, reqMethod string) *Spec {
 		size = 0
 	}
 	fillBody(rng, s, o, size, false)
+	if o.HugeInflate && s.Status != 204 {
+		max := o.MaxInflate
+		if max < 2<<20 {
+			max = 2 << 20
+		}
+		n := 1<<20 + 1 + rng.Intn(max-1<<20)
+		blk := genBytes(rng, []string{"text", "binary", "utf8"}[rng.Intn(3)], 50+rng.Intn(200))
+		s.Payload = bytes.Repeat(blk, n/len(blk)+1)[:n]
+		s.BodyKind = "compressible"
+		s.Coding, s.CodingKind = "gzip", "gzip"
+		switch rng.Intn(4) {
+		case 0:
+			s.Coding, s.CodingKind = "deflate", "deflate"
+		case 1:
+			s.Coding, s.CodingKind = "deflate", "zlib"
+		}
+		s.Members = 1
+		s.Body = Encode(s.CodingKind, s.Payload)
+	}
 	if s.Status == 204 {
 		s.Coding, s.CodingKind, s.Body = "", "", s.Payload
 		if rng.Intn(3) > 0 {
